@@ -199,6 +199,15 @@ Proof.
   rewrite Forall_forall in F. specialize (F 10 Hin). lia.
 Qed.
 
+(* a message whose text contains newline, carriage return, NUL and U+001F still
+   encodes, and the encoding has no byte below 32 *)
+Example no_newline_nonvacuous :
+  match encode (JObj [(KStr [10], JStr [10; 13; 0; 31; 8232; 128512])]) with
+  | Some b => forallb (fun x => 32 <=? x) b = true /\ (0 < length b)%nat
+  | None => False
+  end.
+Proof. vm_compute. split; [reflexivity | lia]. Qed.
+
 (* ========================================================================
    2. events
    ======================================================================== *)
